@@ -24,7 +24,7 @@ import (
 	"verifharness/internal/srvx"
 )
 
-var allKinds = []string{"missing", "unknown", "unknownstr", "aliasns", "aliasstr", "closed", "notactivated", "valid", "validB"}
+var allKinds = []string{"missing", "unknown", "unknownstr", "aliasns", "aliasstr", "sessionid", "closedsid", "closed", "notactivated", "valid", "validB"}
 
 // requests that cannot hit a dereference whatever the token is
 func safeRequests(v int32) []struct {
@@ -117,6 +117,17 @@ func epMatrix(e *srvx.Episode) {
 			e.Do("valid", fmt.Sprintf("setmode %d,%d", a, b), srvx.SetModeReq(id, a, b), "")
 			e.Do("valid2", fmt.Sprintf("setmode %d", a), srvx.SetModeReq(id, a), "other session's item")
 			e.Do("valid", fmt.Sprintf("delitems %d", a), srvx.DeleteItemsReq(id, a), "")
+		}
+		// the other session names a subscription of ITS OWN together with the victim's item ids
+		if r3 := e.Do("valid2", "createsub huge", srvx.CreateSubReq(3600000, 100000, 100000), ""); r3.Resp != nil {
+			if own, ok := r3.Resp.(*ua.CreateSubscriptionResponse); ok {
+				if ir, ok := r2.Resp.(*ua.CreateMonitoredItemsResponse); ok && len(ir.Results) == 2 {
+					b := ir.Results[1].MonitoredItemID
+					e.Do("valid2", fmt.Sprintf("delitems %d", b), srvx.DeleteItemsReq(own.SubscriptionID, b), "other session's item, own subscription id")
+					e.Do("valid2", fmt.Sprintf("setmode %d", b), srvx.SetModeReq(own.SubscriptionID, b), "other session's item, own subscription id")
+				}
+				e.Do("valid2", fmt.Sprintf("delsubs %d", own.SubscriptionID), srvx.DeleteSubsReq(own.SubscriptionID), "")
+			}
 		}
 		e.Do("valid2", fmt.Sprintf("delsubs %d,71", id), srvx.DeleteSubsReq(id, 71), "other session's subscription")
 		e.Do("valid", fmt.Sprintf("delsubs %d", id), srvx.DeleteSubsReq(id), "")
@@ -286,6 +297,13 @@ func evaluate(r *h.Result, d *h.Driver, e *srvx.Episode) {
 			if oc == "sessionerr" {
 				r.Fail(cs, "", "request of an activated session refused: "+x.Out)
 			}
+			if strings.Contains(x.Note, "other session") {
+				// a foreign (though valid) token for this object: no action may be performed
+				if changed || strings.Contains(x.Out, "Good") {
+					r.Fail(cs, "", fmt.Sprintf("%s by a session that does not own the object: answered %s, state %s -> %s", x.Req, x.Out, x.Pre, x.Post))
+				}
+				r.Hit("foreign-refused")
+			}
 			r.Hit("served-valid")
 		default:
 			// ---- the property: session error and no action
@@ -373,7 +391,7 @@ func main() {
 		evaluate(r, d, e)
 	}
 	for _, b := range []string{"out:ok", "out:sessionerr", "out:fault", "out:noresponse", "served-valid", "refused:publish",
-		"refused:subscription", "refused:monitoreditems", "activation-refused-bad-signature",
+		"refused:subscription", "refused:monitoreditems", "activation-refused-bad-signature", "foreign-refused", "kind:sessionid", "kind:closedsid",
 		"violation:C35.read-without-session", "violation:C35.write-without-session", "violation:C35.browse-without-session",
 		"violation:C35.unsupported-without-session", "violation:C35.not-activated-session-accepted"} {
 		if r.Distribution[b] == 0 && o.Replay == "" {
